@@ -27,21 +27,29 @@ theorem nonce_gate (d : Bool) (t s : Nat) :
           exact h ⟨h1, h2⟩
   · simp
 
-/-- The gate passes exactly when in-order nonce validation accepts the transaction. -/
-theorem gate_iff_valid (d : Bool) (t s : Nat) :
+/-- The gate passes exactly when in-order nonce validation accepts the transaction. The gate only
+    ever sees a transaction that HAS a speculative result, and revm produces none for nonce
+    `u64::MAX` (`nonce_max_always_invalid`), hence the hypothesis. -/
+theorem gate_iff_valid (d : Bool) (t s : Nat) (ht : t ≠ U64_MAX) :
     nonceGate d t s = .committed ↔ nonceInvalid d t s = none := by
   unfold nonceGate nonceInvalid
   cases d
-  · simp only [Bool.false_eq_true, if_false]
+  · simp only [Bool.false_eq_true, if_false, ht, false_and]
     split
     · simp
-    · split
-      · simp
-      · split <;> simp
-  · simp
+    · split <;> simp
+  · simp [ht]
 
-/-- With nonce checking disabled no nonce-based skip or fallback occurs. -/
-theorem nonce_check_off (t s : Nat) : nonceGate true t s = .committed ∧ nonceInvalid true t s = none := by
+/-- A transaction with nonce `u64::MAX` is invalid in order whatever the state and the
+    configuration; its speculative run is rejected by revm before execution, so it takes the
+    invalid-transaction path (sequential replay) and never reaches the commit gate. -/
+theorem nonce_max_always_invalid (d : Bool) (s : Nat) : nonceInvalid d U64_MAX s = some 0 := by
+  simp [nonceInvalid]
+
+/-- With nonce checking disabled no nonce-based skip or fallback occurs (nonce `u64::MAX` aside,
+    which revm rejects in every configuration). -/
+theorem nonce_check_off (t s : Nat) :
+    nonceGate true t s = .committed ∧ (t ≠ U64_MAX → nonceInvalid true t s = none) := by
   simp [nonceGate, nonceInvalid]
 
 /-- What the block reports for a transaction whose speculative (nonce-unchecked) result is
@@ -55,7 +63,7 @@ def reported (d : Bool) (t s : Nat) (unchecked : TxRes) (checkedInOrder : TxRes)
 /-- **gate_equiv.** If revm's validation is "nonce check ∧ nonce-independent rest" — i.e. the
     checked in-order run is the invalid-nonce verdict when the nonce is bad and otherwise equals the
     unchecked run on the same state — then what is reported equals the checked in-order result. -/
-theorem gate_equiv (d : Bool) (t s : Nat) (unchecked checkedInOrder : TxRes)
+theorem gate_equiv (d : Bool) (t s : Nat) (unchecked checkedInOrder : TxRes) (ht : t ≠ U64_MAX)
     (hdecomp : checkedInOrder =
       match nonceInvalid d t s with
       | some reason => .invalid reason
@@ -64,7 +72,7 @@ theorem gate_equiv (d : Bool) (t s : Nat) (unchecked checkedInOrder : TxRes)
   unfold reported
   cases hg : nonceGate d t s with
   | committed =>
-    have := (gate_iff_valid d t s).mp hg
+    have := (gate_iff_valid d t s ht).mp hg
     simp [this] at hdecomp
     simp [hdecomp]
   | fallback => rfl
